@@ -75,6 +75,8 @@ structure HullCert (sites H : List Pt) : Prop where
   contains : 3 ≤ H.length → ∀ e ∈ loopEdges H, ∀ s ∈ sites, 0 ≤ Kernel.det e.1 e.2 s
   /-- strictly convex and counter-clockwise: every other hull vertex is strictly left of every hull edge -/
   convex : 3 ≤ H.length → ∀ e ∈ loopEdges H, ∀ v ∈ H, v = e.1 ∨ v = e.2 ∨ 0 < Kernel.det e.1 e.2 v
+  fan_positive : 3 ≤ H.length → ∀ t ∈ fan H, 0 < t.det
+  fan_separated : 3 ≤ H.length → (fan H).Pairwise Separated
 
 theorem hullOK_sound (sites H : List Pt) (h : hullOK sites H = true) : HullCert sites H := by
   simp only [hullOK, Bool.and_eq_true, List.all_eq_true] at h
@@ -82,24 +84,25 @@ theorem hullOK_sound (sites H : List Pt) (h : hullOK sites H = true) : HullCert 
   have hv' : ∀ v ∈ H, v ∈ sites := fun v hvm => (memB_iff v sites).mp (hv v hvm)
   match H, hm with
   | [], hm =>
-    refine ⟨hv', fun _ => by simpa using hm, by simp, by simp, by simp, by simp⟩
+    refine ⟨hv', fun _ => by simpa using hm, by simp, by simp, by simp, by simp, by simp, by simp⟩
   | [a], hm =>
     simp only [List.all_eq_true, decide_eq_true_eq] at hm
-    refine ⟨hv', by simp, ?_, by simp, by simp, by simp⟩
+    refine ⟨hv', by simp, ?_, by simp, by simp, by simp, by simp, by simp⟩
     intro a' ha' s hs
     have : a = a' := by simpa using ha'
     subst this; exact hm s hs
   | [a, b], hm =>
     simp only [Bool.and_eq_true, decide_eq_true_eq, List.all_eq_true] at hm
-    refine ⟨hv', by simp, by simp, ?_, by simp, by simp⟩
+    refine ⟨hv', by simp, by simp, ?_, by simp, by simp, by simp, by simp⟩
     intro a' b' hab
     have h1 : a = a' ∧ b = b' := by simpa using hab
     obtain ⟨rfl, rfl⟩ := h1
     exact ⟨hm.1, hm.2⟩
   | a :: b :: c :: r, hm =>
     simp only [Bool.and_eq_true, List.all_eq_true, decide_eq_true_eq, Bool.or_eq_true] at hm
-    refine ⟨hv', by simp, by simp, by simp, fun _ => hm.1, fun _ e he v hvm => ?_⟩
-    rcases hm.2 e he v hvm with (h1 | h1) | h1
+    refine ⟨hv', by simp, by simp, by simp, fun _ => hm.1.1.1, fun _ e he v hvm => ?_, fun _ => hm.1.2,
+      fun _ => pairwiseDisjoint_sound _ hm.2⟩
+    rcases hm.1.1.2 e he v hvm with (h1 | h1) | h1
     · exact Or.inl h1
     · exact Or.inr (Or.inl h1)
     · exact Or.inr (Or.inr h1)
